@@ -26,6 +26,7 @@ type Engine struct {
 	errGlobals map[*ssa.Global]int
 	maxPaths int
 	maxSteps int
+	repoDir string
 	curFn   *ssa.Function // function under verification
 	curFC   *FuncContract
 	results []*PathResult
@@ -35,6 +36,7 @@ type Engine struct {
 	verbose bool
 	specDone map[string]bool
 	prune   func(st *State, cond string) (bool, bool)
+	liveBlocks map[*ssa.BasicBlock]bool // order-only contracts: blocks from which a call named in an atcall clause is reachable
 	localOK map[*ssa.Alloc]bool
 	axiomsDone bool
 }
